@@ -97,8 +97,13 @@ func c04Grammar(res *explore.Result, g *gram.Grammar, inputs [][]byte, verbose b
 	trims := false
 	for _, e := range g.Nodes() {
 		if e.K == gram.LTrim || e.K == gram.RTrim {
-			admitted = false // the reference does not model whitespace trimming
 			trims = true
+			if e.K == gram.RTrim || e.Mode != 2 {
+				// the reference models LeftTrim in the mode that never fails (spaces and new lines, what text.Trim
+				// uses); in the other modes, and for RightTrim, what "some parse" means next to an operand that matches
+				// empty is not settled by the statement: those grammars are held to the unconditional clauses only
+				admitted = false
+			}
 		}
 		if e.K == gram.Single {
 			// combinator.Single drops its operand's result whenever the operand also returned an error (Optional
